@@ -186,8 +186,11 @@ func (p *Parser) parseSliceExpression() (ASTNode, error) {
 	for current != tRbracket && index < 3 {
 		if current == tColon {
 			index++
+			if index == 3 {
+				return ASTNode{}, p.syntaxError("Too many colons in slice expression")
+			}
 			p.advance()
-		} else if current == tNumber {
+		} else if current == tNumber && parts[index] == nil {
 			parsedInt, err := strconv.Atoi(p.lookaheadToken(0).value)
 			if err != nil {
 				return ASTNode{}, err
